@@ -442,6 +442,9 @@ func (s *Session) writeCompressed(rw io.ReadWriter, p *Proposal) (err error) {
 	if p.compressedSize < 6 { // lzhuf's smallest valid length (empty)
 		return errors.New(`Invalid compressed data`)
 	}
+	if p.offset < 0 || p.offset > len(p.compressedData) {
+		return fmt.Errorf("Requested offset %d is outside the message", p.offset)
+	}
 
 	buffer := bytes.NewBuffer(p.compressedData[p.offset:])
 
